@@ -63,6 +63,11 @@ class Neo4jPropertyGraph(ABCPropertyGraph):
         assert isinstance(importer, Neo4jGraphImporter)
         self.driver = importer.driver
 
+    @staticmethod
+    def _escape(val: Any, quote: str = "'") -> str:
+        """ escape a value for inclusion in a Cypher string literal delimited by quote """
+        return str(val).replace('\\', '\\\\').replace(quote, '\\' + quote)
+
     def _validate_graph(self, rules_file: str) -> None:
         """ validate the graph imported in Neo4j according to a set of given Cypher rules"""
         f = open(rules_file)
@@ -254,7 +259,7 @@ class Neo4jPropertyGraph(ABCPropertyGraph):
 
         all_props = ""
         for k, v in props.items():
-            all_props += f"{k}: '{v}', "
+            all_props += f"{k}: '{self._escape(v)}', "
         if len(all_props) > 2:
             all_props = all_props[:-2]
 
@@ -324,7 +329,7 @@ class Neo4jPropertyGraph(ABCPropertyGraph):
 
         all_props = ""
         for k, v in props.items():
-            all_props += f'{k}: "{v}", '
+            all_props += f'{k}: "{self._escape(v, chr(34))}", '
         if len(all_props) > 2:
             all_props = all_props[:-2]
 
@@ -345,7 +350,8 @@ class Neo4jPropertyGraph(ABCPropertyGraph):
         if format != GraphFormat.GRAPHML:
             PropertyGraphQueryException(graph_id=self.graph_id, node_id=None,
                                         msg=f"Unsupported export graph format {format.name}")
-        inner_query = f'match(n:GraphNode {{GraphID: "{self.graph_id}"}}) optional match(n) -[r]- (m) return n, r, m'
+        inner_query = f'match(n:GraphNode {{GraphID: "{self._escape(self.graph_id, chr(34))}"}}) ' \
+                      f'optional match(n) -[r]- (m) return n, r, m'
         # run inner query to check the graph has anything in it
         with self.driver.session() as session:
             val = session.run(inner_query)
@@ -353,7 +359,7 @@ class Neo4jPropertyGraph(ABCPropertyGraph):
                 raise PropertyGraphQueryException(graph_id=self.graph_id,
                                                   node_id=None, msg="No such graph in the database")
 
-        query = f"with '{inner_query}' as query " \
+        query = f"with '{self._escape(inner_query)}' as query " \
                 "CALL apoc.export.graphml.query(query, null, {stream: true, useTypes: true}) " \
                 "YIELD file, source, format, nodes, relationships, properties, time, " \
                 "rows, batchSize, batches, done, data " \
@@ -380,7 +386,7 @@ class Neo4jPropertyGraph(ABCPropertyGraph):
         Does the graph with this ID exist?
         :return:
         """
-        inner_query = f'match(n:GraphNode {{GraphID: "{self.graph_id}"}}) -[r]- (m) return n, r, m'
+        inner_query = f'match(n:GraphNode {{GraphID: "{self._escape(self.graph_id, chr(34))}"}}) -[r]- (m) return n, r, m'
         # run  query to check the graph has anything in it
         with self.driver.session() as session:
             val = session.run(inner_query)
@@ -538,7 +544,7 @@ class Neo4jPropertyGraph(ABCPropertyGraph):
         all_props = {'Class': f'{label}', 'GraphID': f'{self.graph_id}', 'NodeID': f'{node_id}'}
         if props:
             all_props.update(props)
-        string_props = ", ".join((f"{k}: '{v}'" for k, v in all_props.items()))
+        string_props = ", ".join((f"{k}: '{self._escape(v)}'" for k, v in all_props.items()))
         labels = f"'GraphNode', '{label}'"
         query = f"CALL apoc.create.node([ {labels} ], {{ {string_props} }});"
         with self.driver.session() as session:
@@ -554,7 +560,7 @@ class Neo4jPropertyGraph(ABCPropertyGraph):
         all_props = {'Class': f'{rel}'}
         if props:
             all_props.update(props)
-        string_props = ", ".join((f"{k}: '{v}'" for k, v in all_props.items()))
+        string_props = ", ".join((f"{k}: '{self._escape(v)}'" for k, v in all_props.items()))
         query = f"MATCH (a:GraphNode {{GraphID: $graphId, NodeID: $nodeA}}) " \
                 f"MATCH (b:GraphNode {{GraphID: $graphId, NodeID: $nodeB}}) " \
                 f"CALL apoc.create.relationship(a, \"{rel}\", {{ {string_props} }}, b)" \
